@@ -417,6 +417,9 @@ func (a *absFn) key(v ssa.Value) string {
 		}
 		if pure {
 			k = a.t.T(x)
+			if strings.Contains(k, "@u") || strings.Contains(k, "phi{") {
+				k = "call:" + x.Name() + ":" + k
+			}
 		} else {
 			k = "call:" + x.Name() + ":" + CalleeName(x)
 		}
@@ -424,7 +427,7 @@ func (a *absFn) key(v ssa.Value) string {
 		k = a.key(x.Tuple) + "#" + fmt.Sprint(x.Index)
 	case *ssa.UnOp, *ssa.Field, *ssa.FieldAddr, *ssa.Index, *ssa.IndexAddr, *ssa.Lookup, *ssa.BinOp, *ssa.Convert, *ssa.ChangeType, *ssa.Slice, *ssa.TypeAssert:
 		k = a.t.T(v)
-		if strings.Contains(k, "phi{") || strings.Contains(k, "loop") || strings.Contains(k, "…") || strings.Contains(k, "dyn(") || strings.Contains(k, "iface:") {
+		if strings.Contains(k, "phi{") || strings.Contains(k, "loop") || strings.Contains(k, "…") || strings.Contains(k, "dyn(") || strings.Contains(k, "iface:") || strings.Contains(k, "@u") {
 			// not a pure expression of stable values: unique identity
 			k = "val:" + v.Name() + "=" + k
 		}
